@@ -406,9 +406,14 @@ where
         // Apply the new events
         self.patch_unchecked(&diff.patch).await?;
 
-        // Verify against the checkpoint
-        let computed = self.tree().head()?;
-        let verified = computed == diff.checkpoint;
+        // Verify against the checkpoint, when the head can not
+        // be computed (no events) verification has failed too and
+        // the previous state must be restored before returning
+        let computed = self.tree().head();
+        let verified = computed
+            .as_ref()
+            .map(|head| head == &diff.checkpoint)
+            .unwrap_or(false);
 
         let mut rollback_completed = false;
         match (verified, &snapshot) {
@@ -430,6 +435,7 @@ where
         }
 
         if !verified {
+            let computed = computed?;
             return Err(Error::CheckpointVerification {
                 checkpoint: diff.checkpoint.root,
                 computed: computed.root,
